@@ -33,6 +33,10 @@ PROPS["C14"] = {
                 "TestC14RFCInputs": LIST(),
             },
         },
+        {   # a binary that links nothing but the package itself (no hash registered by a neighbour): plain Go test
+            "pkg": "internal/zzc14link", "configs": ["default"],
+            "tests": {"TestC14LinkAlone": LIST()},
+        },
         {
             "pkg": "internal/elligator", "configs": ALL4Q,
             "tests": {
